@@ -49,15 +49,19 @@ Fixpoint walk_ok (c : codec) {struct c} : Prop :=
   | _ => False
   end.
 
+Lemma walk_ok_top : forall c, walk_ok c -> top_ok c.
+Proof. destruct c; cbn [walk_ok top_ok]; auto. Qed.
+
 Lemma walk_ok_rt : forall c, walk_ok c -> rt_ok c.
 Proof.
   induction c as [ |b|b|b| | | | |compat| |c IH|c IH|nm n fs IH|c IH|c IH|c IH|c IH|kc vc IHk IHv|kc vc IHk IHv| | | ]
     using codec_ind'; cbn [walk_ok rt_ok]; intros H; auto; try contradiction.
   - subst. unfold bits_ok. auto.
+  - split; [apply IH; exact H|apply walk_ok_top; exact H].
   - destruct H as (Hall & H1 & H2). split; [|split; assumption]. clear H1 H2.
     induction IH as [|f r Hf Hr IHr]; [exact I|]. destruct Hall as [(A & B & C) Hall]. split; [split; auto|apply IHr; exact Hall].
   - apply H.
-  - destruct H as [A B]. split; [apply IH; exact A|exact B].
+  - destruct H as [A B]. split; [apply IH; exact A|]. split; [exact B|apply walk_ok_top; exact A].
 Qed.
 
 (** container lengths fit Go's int *)
@@ -142,7 +146,7 @@ Section FieldWalk.
   Variable es : list desc.
 
   Lemma field_walk_step : forall c idx name d0 fv more consumed hk hv acc fuel,
-    rt_ok c -> (0 <= idx < 2305843009213693952)%Z ->
+    rt_ok c -> top_ok c -> (0 <= idx < 2305843009213693952)%Z ->
     find_elem es idx = Some (with_field idx name d0) ->
     (forall b, walkd (with_field idx name d0) b = walk d0 b) ->
     descriptor_of c = Ok d0 -> WKc c -> wfv c fv -> fits c fv -> wkv c fv ->
@@ -151,9 +155,9 @@ Section FieldWalk.
     walk_fields walkd es false (S fuel) (e ++ more) consumed hk hv acc
     = walk_fields walkd es false fuel more (consumed + len e) hk hv (acc ++ EvName name :: vev c fv).
   Proof.
-    intros c idx name d0 fv more consumed hk hv acc fuel Hok Hidx Hfind Hwd Hd Hwk Hw Hf Hk e Hfuel.
+    intros c idx name d0 fv more consumed hk hv acc fuel Hok Htop Hidx Hfind Hwd Hd Hwk Hw Hf Hk e Hfuel.
     set (tg := field_tag c idx) in *.
-    destruct (tagged_enc_shape c Hok fv idx Hw Hf) as [ShL ShS]. fold tg in ShL, ShS.
+    destruct (tagged_enc_shape c Hok Htop fv idx Hw Hf) as [ShL ShS]. fold tg in ShL, ShS.
     destruct (Hwk fv d0 Hd Hw Hf Hk) as [WkL WkS].
     pose proof (field_tag_nonempty c idx) as Htg. fold tg in Htg.
     assert (Hname : d_name (with_field idx name d0) = name) by (destruct d0; reflexivity).
@@ -292,11 +296,11 @@ Section FieldsWalk.
         pose proof (find_elem_field fs es f d0 Hes Hnd Hin Hd) as Hfind.
         destruct fuel as [|fuel']; [lia|].
         rewrite (field_walk_step (subwalk es) es (f_codec f) (f_index f) (f_name f) d0 (slot vs (f_slot f))
-                   (flat_map (fenc vs) r) consumed hk hv acc fuel' (walk_ok_rt _ Hok) Hidx Hfind).
+                   (flat_map (fenc vs) r) consumed hk hv acc fuel' (walk_ok_rt _ Hok) (walk_ok_top _ Hok) Hidx Hfind).
         * assert (Hlt : (length (flat_map (fenc vs) r) < fuel')%nat).
           { rewrite app_length in Hfuel.
             pose proof (field_tag_nonempty (f_codec f) (f_index f)) as Htg.
-            destruct (tagged_enc_shape (f_codec f) (walk_ok_rt _ Hok) (slot vs (f_slot f)) (f_index f) Hw Hfit) as [ShL ShS].
+            destruct (tagged_enc_shape (f_codec f) (walk_ok_rt _ Hok) (walk_ok_top _ Hok) (slot vs (f_slot f)) (f_index f) Hw Hfit) as [ShL ShS].
             assert (1 <= length (enc (f_codec f) (slot vs (f_slot f)) (field_tag (f_codec f) (f_index f))))%nat.
             { destruct (N.eq_dec (wire (f_codec f)) WTLength) as [Hwt|Hwt].
               - destruct (ShL Hwt) as [-> _]. rewrite app_length. unfold len in Htg. lia.
